@@ -5,6 +5,8 @@ import WhatIs.Model.Base64
 import WhatIs.Model.RpmGuard
 import WhatIs.Model.JksGuard
 import WhatIs.Lemmas.Jks
+import WhatIs.Model.PgpFrame
+import WhatIs.Lemmas.PgpFrame
 import WhatIs.Lemmas.Robust
 /-
   Props/C08.lean — PROPERTY THEOREMS for C08 (resource use is bounded by input size).
@@ -107,6 +109,20 @@ theorem jks_stuck_witness :
     let d : Bytes := [0xFE,0xED,0xFE,0xED, 0,0,0,2, 0,0,0,1, 0,0,0,1, 0,1,97, 0,0,0,0,0,0,0,0, 0,0,0,0, 255,255,255,255, 0]
     (JksGuard.walkB false d).steps ≥ 4294967295 ∧ (JksGuard.walkB true d).steps ≤ 3 ∧
     (JksGuard.walkB false d).verdict = true ∧ (JksGuard.walkB true d).verdict = true := by decide
+
+/-- OpenPGP framing: whatever the packet length fields announce (up to 2^32-1 per packet, any chain of partial
+    lengths), the packet bodies the reader delivers are input bytes — all of them together, plus one header byte per
+    packet, are no more than the input -/
+theorem pgp_bodies_bounded (data : Bytes) :
+    Lemmas.PgpFrame.bodySum (PgpFrame.readAll data).1 + (PgpFrame.readAll data).1.length ≤ data.length :=
+  Lemmas.PgpFrame.frames_bodies_le _ data
+
+/-- … and the packet loop terminates: fuel above the input length is never used up -/
+theorem pgp_framing_terminates (data : Bytes) (f g : Nat) (hf : data.length < f) (hg : data.length < g) :
+    PgpFrame.frames f data = PgpFrame.frames g data := Lemmas.PgpFrame.frames_fuel data f g hf hg
+
+/-- a 6-byte input whose header announces 4 GiB yields an error, not a packet -/
+example : PgpFrame.next [0xC0 + 13, 255, 255, 255, 255, 255, 65] = .err := by decide
 
 -- non-vacuity ---------------------------------------------------------------------------------------
 /-- an endless source of zero bytes read in 3-byte pieces under a small allowance: the loop stops at the allowance -/
